@@ -167,13 +167,15 @@ fn sd(group: &'static str, pipes: Vec<PipeDef>) -> SpecDef {
     SpecDef { group, pipes }
 }
 
+/// `g1{r@w0}`: a second group on worker 0 whose pipeline name does NOT collide with g0's (added after
+/// seeded change C32, whose effect on same-named pipelines is indistinguishable from known family D).
 fn configs(tier: mc::Tier) -> Vec<Cfg> {
-    let w2_specs = || vec![sd("g0", vec![pd("p", 0)]), sd("g0", vec![pd("p", 0), pd("q", 1)]), sd("g1", vec![pd("p", 0)]), sd("g1", vec![pd("p", 1)])];
+    let w2_specs = || vec![sd("g0", vec![pd("p", 0)]), sd("g0", vec![pd("p", 0), pd("q", 1)]), sd("g1", vec![pd("p", 0)]), sd("g1", vec![pd("p", 1)]), sd("g1", vec![pd("r", 0)])];
     let w3 = |depth, budget_s| Cfg { name: "w3", workers: 3, initial: vec![0, 1, 2], specs: vec![sd("g0", vec![pd("p", 0)]), sd("g1", vec![pd("p", 0)]), sd("g0", vec![pd("p", 0), pd("q", 1)])], max_deploys: 2, depth, budget_s };
     let reb = |depth, budget_s| Cfg { name: "rebalance", workers: 2, initial: vec![0], specs: vec![sd("g0", vec![pd("p", 0), pd("q", 0)]), sd("g1", vec![PipeDef { name: "u", pin: None, replicas: 1 }])], max_deploys: 2, depth, budget_s };
     let rep = |depth, budget_s| Cfg { name: "replicas", workers: 2, initial: vec![0, 1], specs: vec![sd("g0", vec![PipeDef { name: "p", pin: Some(0), replicas: 2 }])], max_deploys: 2, depth, budget_s };
     match tier {
-        mc::Tier::Quick => vec![Cfg { name: "w2q", workers: 2, initial: vec![0, 1], specs: vec![sd("g0", vec![pd("p", 0), pd("q", 1)]), sd("g1", vec![pd("p", 0)])], max_deploys: 2, depth: 6, budget_s: 34 }],
+        mc::Tier::Quick => vec![Cfg { name: "w2q", workers: 2, initial: vec![0, 1], specs: vec![sd("g0", vec![pd("p", 0), pd("q", 1)]), sd("g1", vec![pd("p", 0)]), sd("g1", vec![pd("r", 0)])], max_deploys: 2, depth: 6, budget_s: 34 }],
         // cheap configurations first; the last one may use whatever is left of the tier's wall budget
         mc::Tier::Thorough => vec![reb(8, 300), rep(7, 100), w3(7, 280), Cfg { name: "w2", workers: 2, initial: vec![0, 1], specs: w2_specs(), max_deploys: 2, depth: 7, budget_s: 1100 }],
     }
@@ -1125,7 +1127,8 @@ fn first_violation<'c>(cfg: &'c Cfg, steps: &[LStep]) -> Option<(usize, Clause, 
 /// computed from the minimal history only:
 /// `C32:<operations after its last quiescent consistent state, with outcome class>:<clause>`;
 /// operations that overlapped are joined by `||` (sorted), sequential ones by `+` (in order); when
-/// more than two operations remain, only the opening and the last-completing one are named.
+/// more than two operations remain, the opening and the last-completing one are named in place and
+/// the others as a sorted set in brackets between them.
 fn classify(cfg: &Cfg, steps: &[LStep]) -> Option<Finding> {
     let mut replays = 1u64;
     let (n, clause, w, _) = first_violation(cfg, steps)?;
@@ -1157,7 +1160,12 @@ fn classify(cfg: &Cfg, steps: &[LStep]) -> Option<Finding> {
         // and the one whose step completes last (the scope is the pair; `..` marks that others took part)
         let first = (0..ops.len()).min_by_key(|i| spans[*i].0).unwrap_or(0);
         let last = (0..ops.len()).filter(|i| *i != first).max_by_key(|i| spans[*i].1).unwrap_or(0);
-        format!("{}{sep}..{sep}{}", descs[first], descs[last])
+        // the operations in between are named as a sorted set, so that a different combination of
+        // operations is a different scope (a bare `..` let seeded change C32 hide behind a known pair)
+        let mut mid: Vec<String> = (0..ops.len()).filter(|i| *i != first && *i != last).map(|i| descs[i].clone()).collect();
+        mid.sort();
+        mid.dedup();
+        format!("{}{sep}[{}]{sep}{}", descs[first], mid.join(","), descs[last])
     } else if overlapped {
         descs.sort();
         descs.join(sep)
